@@ -108,6 +108,15 @@ func (f *frame) lookupVar(name string, at *ssa.BasicBlock, st *State) (Val, bool
 			continue
 		}
 		for _, ins := range b.Instrs {
+			// a phi named after the variable is the variable's value at a merge point
+			if phi, ok := ins.(*ssa.Phi); ok {
+				if phi.Comment == name && (bestBlock == nil || bestBlock.Dominates(b)) {
+					if _, done := f.vals[phi]; done {
+						best, bestBlock, bestAddr = phi, b, false
+					}
+				}
+				continue
+			}
 			d, ok := ins.(*ssa.DebugRef)
 			if !ok {
 				continue
@@ -188,6 +197,9 @@ func (vc *VC) evalSpec(env *Env, e SExpr) Val {
 		if v, ok := env.vars["&"+x.Name]; ok {
 			t := v.Typ.Underlying().(*types.Pointer).Elem()
 			return Val{T: vc.loadVal(env.st, v.T, t, "true", false), Typ: t}
+		}
+		if v, ok := vc.ghostVal(env, x.Name); ok {
+			return v
 		}
 		// package-level constant or variable
 		if env.fn != nil {
@@ -713,6 +725,12 @@ func (vc *VC) assignPats(env *Env, cs []*Clause) []modPat {
 func (vc *VC) specAddr(env *Env, e SExpr) (loc string, t types.Type, steps []step, ok bool) {
 	switch x := e.(type) {
 	case *SUn:
+	case *SIdent:
+		if g := vc.Eng.Spec.Ghosts[x.Name]; g != nil {
+			if t := vc.resolveGhostType(env, g); t != nil {
+				return vc.ghostLoc(x.Name), t, nil, true
+			}
+		}
 	case *SField:
 		// pointer.field, or lvalue.field
 		if bl, bt, bs, ok := vc.specAddr(env, x.X); ok {
@@ -753,6 +771,15 @@ func (vc *VC) specAddr(env *Env, e SExpr) (loc string, t types.Type, steps []ste
 		i := vc.evalSpec(env, x.I)
 		return App("sl.base", v.T), sl.Elem(), []step{{elem: true, idx: App("+", App("sl.off", v.T), i.T)}}, true
 	case *SCall:
+		if x.Fun == "anyelem" && len(x.Args) == 1 {
+			// anyelem(T): every slice/array element cell holding a T (type-level frame)
+			if id, ok := x.Args[0].(*SIdent); ok {
+				if t := vc.resolveType(env, id.Name); t != nil {
+					return "", t, []step{{elem: true}}, true
+				}
+			}
+			return "", nil, nil, false
+		}
 		if x.Fun == "deref" && len(x.Args) == 1 {
 			v := vc.evalSpec(env, x.Args[0])
 			if p, ok := v.Typ.Underlying().(*types.Pointer); ok {
@@ -817,7 +844,10 @@ func (f *frame) loopModPats(li *loopInfo, pre *State) []modPat {
 		}
 		return "", nil, true
 	}
-	for b := range li.blocks {
+	for _, b := range f.fn.Blocks {
+		if !li.blocks[b] {
+			continue
+		}
 		for _, ins := range b.Instrs {
 			switch x := ins.(type) {
 			case *ssa.Store:
